@@ -14,7 +14,9 @@ The equality is stated for **every** family of interval operations `ops : Ops Bi
 functions compute on a set of *safe* intervals (`SafeOps`: `S d iv` — "`iv` can be extended `d` more times without a
 panic"; closed under the extensions by pattern symbols), and **up to the order of the result** (`List.Perm`): the
 property fixes neither the value of an extension of an empty interval (seeded change C06-H1) nor the order in which the
-matches are returned (C06-H2).  `RbV/Thm/GenSrcFmdIndex.lean` instantiates `S` for an FMD index.
+matches are returned (C06-H2), nor what happens on the way to the empty answer when `pattern[i]` does not occur (C06-H4:
+`smems_eq_model_of` takes "the model reports nothing then" as a hypothesis; the unconditional equality is the soft module
+`RbV/Thm/GenSrcFmdSmemsModel.lean`).  `RbV/Thm/GenSrcFmdIndex.lean` instantiates `S` for an FMD index.
 -/
 set_option linter.unusedSimpArgs false
 set_option linter.unusedVariables false
@@ -300,8 +302,12 @@ theorem for2_eq (l : Nat) (ivT : BiT) (mlT : Nat) (hL : pat.length + 1 < 2 ^ 63)
 
 include hS in
 /-- **the translated `smems` returns the mirror model's matches (over the operations the translated extension functions
-compute), up to their order** -/
-theorem smems_eq_model (i l : Nat) (hi : i < pat.length) (hL : pat.length + 1 < 2 ^ 63) :
+compute), up to their order.**  `hdead`: when `pattern[i]` does not occur (the initial interval is empty) the model
+reports nothing — true for `l ≥ 1` on every index (`smems_dead`); the property says nothing else about this case, so a
+text that returns the empty list right away (seeded change C06-H4) is accepted as well as one that runs the sweep on the
+empty interval.  The unconditional step-by-step equality is the soft `GenSrcFmdSmemsModel.smems_eq_model`. -/
+theorem smems_eq_model_of (i l : Nat) (hi : i < pat.length) (hL : pat.length + 1 < 2 ^ 63)
+    (hdead : (ops.initWith i (pat.getD i 0)).size = 0 → SmemModel.smems ops pat i l = []) :
     ∃ res, SrcFmdSmems.smems lessF occF dnaCompl pat i l = Res.ok res ∧
       res.Perm ((SmemModel.smems ops pat i l).map hitT) := by
   obtain ⟨hinit, hinitS⟩ := hS.init i hi
@@ -346,12 +352,19 @@ theorem smems_eq_model (i l : Nat) (hi : i < pat.length) (hL : pat.length + 1 < 
     List.singleton_append, List.cons_append] at h2
   have hrev := Rs.irange_m1_rev i
   by_cases hz : (ops.initWith i (pat.getD i 0)).size = 0
-  · have hm : ml0 = 0 := by rw [← hml0', if_neg (by simpa using hz)]
-    subst hm
-    have hmodel : SmemModel.smems ops pat i l = outerLoop ops pat l i (forwardPhase ops pat i) (pat.length + 1) [] := rfl
-    rw [hmodel, ← hr2]
-    simp [-List.getD_eq_getElem?_getD, SrcFmdSmems.smems, e0, hinit, hz, e1, e1', e2, e2', e3, hf.1, e4, e5, hrev, h2,
-      List.reverse_perm]
+  · have hM := hdead hz
+    first
+      | -- a text that leaves at once when the symbol is absent
+        (refine ⟨[], ?_, ?_⟩
+         · simp [-List.getD_eq_getElem?_getD, SrcFmdSmems.smems, e0, hinit, hz]
+         · rw [hM]; exact List.Perm.refl _)
+      | -- a text that runs the sweep on the empty interval
+        (have hm : ml0 = 0 := by rw [← hml0', if_neg (by simpa using hz)]
+         subst hm
+         have hmodel : SmemModel.smems ops pat i l = outerLoop ops pat l i (forwardPhase ops pat i) (pat.length + 1) [] := rfl
+         rw [hmodel, ← hr2]
+         simp [-List.getD_eq_getElem?_getD, SrcFmdSmems.smems, e0, hinit, hz, e1, e1', e2, e2', e3, hf.1, e4, e5, hrev, h2,
+           List.reverse_perm])
   · have hm : ml0 = 1 := by rw [← hml0', if_pos (by simpa using hz)]
     subst hm
     have hmodel : SmemModel.smems ops pat i l = outerLoop ops pat l i (forwardPhase ops pat i) (pat.length + 1) [] := rfl
